@@ -2,6 +2,17 @@ module verif
 
 go 1.22
 
-require github.com/goose-lang/goose v0.0.0
+require (
+	github.com/goose-lang/goose v0.0.0
+	github.com/pkg/errors v0.9.1
+)
+
+require (
+	github.com/goose-lang/primitive v0.1.0 // indirect
+	golang.org/x/mod v0.19.0 // indirect
+	golang.org/x/sync v0.7.0 // indirect
+	golang.org/x/sys v0.22.0 // indirect
+	golang.org/x/tools v0.23.0 // indirect
+)
 
 replace github.com/goose-lang/goose => /repo
